@@ -1,14 +1,14 @@
 package props
 
 import (
-	"strings"
 	"bytes"
-	"os"
 	"fmt"
 	"io"
 	"math/rand"
 	"net"
+	"os"
 	"runtime"
+	"strings"
 	"sync"
 	"sync/atomic"
 	"testing"
